@@ -25,7 +25,7 @@ def run(ck):
     ck.guard()
     ck.prove("Props/C20.v")
     cases = []
-    Ns = [4, 5, 7, 8, 11, 12] if quick else list(range(2, 25))
+    Ns = [4, 5, 6, 7, 8, 10, 11, 12] if quick else list(range(2, 25))
     for N in Ns:
         for osz in range(0, N // 2 + 1):
             for m in ([2, 5] if quick else [1, 2, 3, 7, 12, 16]):
@@ -46,7 +46,11 @@ def run(ck):
     for i in range(1 if quick else 6):
         N = 64
         p = {"xc": N / 2 + rng.uniform(-1, 1), "yc": N / 2 + rng.uniform(-1, 1), "flux": 100.0, "r_eff": rng.uniform(2, 5), "n": rng.uniform(0.8, 4), "ellip": rng.uniform(0, 0.6), "theta": rng.uniform(0, 3)}
-        cases.append({"mode": "image", "what": "hybrid", "N": N, "params": p, "ms": [0, 1, 3, 7, 15] if not quick else [0, 3]})
+        cases.append({"mode": "image", "what": "hybrid", "N": N, "params": p, "ms": [0, 1, 3, 7, 11, 15] if not quick else [0, 3, 8]})
+    # witness of the recorded finding (known_findings.json, C20-nsigma-low-n): rendered on every run
+    kf = [f for f in vlib.load_known_findings()["findings"] if f.get("property") == "C20" and f.get("id") == "C20-nsigma-low-n"]
+    for f in kf:
+        cases.append(dict(f["witness"], known_witness=True))
     ck.log("implementation: %d renderer constructions" % len(cases))
     import concurrent.futures as cf
     nsh = min(8, vlib.NCPU)
@@ -59,14 +63,31 @@ def run(ck):
             res[kk + j * nsh] = r
     rows, hyb = [], []
     oracle_bad = []
+    known_hits = []
     for c, r in zip(cases, res):
         ck.bump("mode", c["mode"])
         ck.count(json.dumps(c), nontrivial=not (c["mode"] == "box" and c["os"] == 0))
         if r.get("oracle"):
-            oracle_bad.append((c, r))
+            # recorded finding: the n_sigma clause fails on the real code for low Sersic index (only that
+            # clause, only n below the recorded bound, only deviations below the recorded size)
+            rest = list(r["oracle"])
+            for f in kf:
+                a = f["applies"]
+                if c.get("what") == "hybrid" and c["params"]["n"] < a["n_below"]:
+                    hit = [m for m in rest if m.startswith("n_sigma=") and max(r.get("nsigma_dev", {"": 1.0}).values()) < a["deviation_below"]]
+                    if hit:
+                        rest = [m for m in rest if m not in hit]
+                        known_hits.append((c, hit))
+            if rest:
+                oracle_bad.append((c, dict(r, oracle=rest)))
         if c["mode"] == "box":
             if any(v == 2 for row in r["class"] for v in row):
                 oracle_bad.append((c, {"oracle": ["a pixel is neither point-sampled nor box-integrated with the rule's weights"]}))
+            # search oracle (property text): box = rows/columns [N//2-os, N//2+os)
+            N_, o_ = c["N"], c["os"]
+            want = [[1 if (N_ // 2 - o_ <= rr < N_ // 2 + o_ and N_ // 2 - o_ <= cc < N_ // 2 + o_) else 0 for cc in range(N_)] for rr in range(N_)]
+            if c["num_os"] >= 2 and want != [[1 if v == 1 else 0 for v in row] for row in r["class"]]:
+                oracle_bad.append((c, {"oracle": ["the oversampled box of PixelRenderer((%d,%d), os_pixel_size=%d, num_os=%d) is not rows/columns [N//2-os, N//2+os)" % (N_, N_, o_, c["num_os"])]}))
             cls = "[" + "; ".join("[" + "; ".join("true" if v == 1 else "false" for v in row) + "]" for row in r["class"]) + "]"
             if c["num_os"] >= 2:
                 rows.append("(%d, %d, %s)" % (c["N"], c["os"], cls))
@@ -98,6 +119,10 @@ def run(ck):
     ck.oblige("correspondence:per-pixel class map of real PixelRenderers and hybrid index sets == model (vm_compute)", "correspondence", ok, detail)
     ck.oblige("oracle:outside = point-sampled profile (1e-6), inside = float64 pixel integral (2e-5, num_os>=3), hybrid vs Fourier (6e-3, ==0 at m=0), n_sigma variants (5e-3)", "correspondence",
               not oracle_bad, json.dumps(oracle_bad[0][1]["oracle"][:2]) if oracle_bad else "")
+    if known_hits:
+        worst = max(max(float(re.search(r"by ([0-9.e+-]+) of", m).group(1)) for m in h) for _, h in known_hits)
+        ck.known_finding("%s (reproduced on %d case(s) of this run, worst %.3g of the peak)" % (kf[0]["text"], len(known_hits), worst))
+    ck.extra["known_finding_cases"] = len(known_hits)
     ck.samples += [c for c in cases[:3]] + [c for c in cases if c["mode"] != "box"][:3]
     ck.extra["box_class_maps"] = len(rows)
     ck.trusted += ["Coq 8.16.1 kernel; vm_compute (certificate over Q and class maps)", "translator units PixelBox, Amps; run-time dump of leggauss(m)/2 from the implementation (corr/dump_tables.py)",
